@@ -225,6 +225,9 @@ class HarnessDied(Exception):
 
 def tail(s, n=3000):
     s = "\n".join(l for l in s.splitlines() if not re.match(r"^\d+\. Line ", l))
+    i = s.find("Error:")
+    if i >= 0:
+        return s[i:i + 1500] + "\n...\n" + s[-500:]
     return s[-n:]
 
 
